@@ -342,6 +342,11 @@ def run(ctx, chk):
         if f['lo'] >= 0xe000 and f['hi'] <= 0xfe9f:
             chk.info('fetch from 0x%04x-0x%04x (echo/OAM range) is served from work RAM although data reads return 0 '
                      '(outside the statement: ROM, work RAM, high RAM)' % (f['lo'], f['hi']))
+    # ---- rule 8: which bank the windows show is the documented function of the controller registers
+    from ..report import borrow
+    borrow(ctx, chk, 'C10.8', 'D', 'the bank shown at 0x4000-0x7fff / 0xa000-0xbfff is the documented function of the controller '
+           'registers (0 -> 1 translation, MBC1 upper bits and mode) reduced to the cartridge size at every access site - the '
+           'clauses C12.2, C12.3, C12.4, C12.7, evaluated here as well', 'c12', ['C12.2', 'C12.3', 'C12.4', 'C12.7'], floor=4)
     # ---- rule 6: unmapped
     for name in ('ECHO', 'UNUSABLE'):
         rp = by_region_r.get(name, [])
